@@ -1099,6 +1099,10 @@ def isinstance_one(world, it, x, c):
                         'Container', 'frozenset', 'Hashable')
     if isinstance(x, S.SIter):
         return name in ('Iterable', 'Iterator')
+    if isinstance(x, S.SFunc):
+        # a callback parameter: some callable, an instance of no class of
+        # the repository
+        return name in ('Callable', 'Hashable')
     if isinstance(x, SMap) or type(x).__name__ == 'SMapCell':
         # a symbolic builtin dict (the mutable cell) / mapping
         return name in ('Mapping', 'Iterable', 'Sized', 'Collection',
